@@ -131,16 +131,34 @@ def classify_u256(repo):
             k = mods.pop()
             name = b.name
             needs = {"add": ["self", 2], "mul2": ["self"], "square": ["self"], "mul": ["self|2"]}.get(name, ["self"])
-            closed[b.rec["path"]] = {"class": "I", "mod": k, "needs": needs}
+            ins_ = b.rec.get("inputs") or []
+            cs_ = {(tt.get("fn") or {}).get("name") for _, tt in b.calls()}
+            role = ("add" if len(ins_) == 3 and "add_with_carry" in cs_ else "mul" if len(ins_) == 4 and ins_[1] == "&" + U256 else
+                    "mul2" if len(ins_) == 2 and "mul2" in cs_ else "square" if len(ins_) == 3 and ins_[2] == "u64" else name)
+            needs = {"add": ["self", 2], "mul2": ["self"], "square": ["self"], "mul": ["self|2"]}.get(role, ["self"])
+            closed[b.rec["path"]] = {"class": "I", "mod": k, "needs": needs, "role": role}
             R.instance()
             R.ok(sample={"method": b.rec["path"], "modulus_param": b.local_name(k), "exit": "…→ %s(self, %s, carry)" % (prim.name, b.local_name(k))})
-    for name, (k, needs, reason) in CLOSED_II.items():
-        cands = [b for b in methods if b.name == name and (b.rec.get("inputs") or [None])[0] == "&mut " + U256]
+    # class II is found by role (signature + characteristic limb primitives), not by name: a rename stays silent
+    def callee_names(b):
+        return {(t.get("fn") or {}).get("name") for _, t in b.calls()}
+
+    def has_loop(b):
+        return any(b.dominates(h, u) for u in b.reachable() for h in b.succ()[u])
+    roles = {
+        "sub": lambda b, ins, cs: ins == ["&mut " + U256, "&" + U256, "&" + U256] and {"lt", "add_with_carry", "sub_with_borrow"} <= cs and not has_loop(b),
+        "neg": lambda b, ins, cs: ins == ["&mut " + U256, "&" + U256] and {"is_zero", "sub_with_borrow"} <= cs and "add_with_carry" not in cs and not has_loop(b),
+        "div2": lambda b, ins, cs: ins == ["&mut " + U256, "&" + U256] and {"is_odd", "add_with_carry", "div2"} <= cs and not has_loop(b),
+        "invert": lambda b, ins, cs: ins == ["&mut " + U256, "&" + U256, "&" + U256] and has_loop(b) and {"is_one", "is_even"} <= cs,
+    }
+    for role, (k, needs, reason) in CLOSED_II.items():
+        cands = [b for b in methods if b.rec["path"] not in closed and roles[role](b, b.rec.get("inputs") or [], callee_names(b))]
         if len(cands) == 1:
             b = cands[0]
-            if b.rec["path"] not in closed:
-                closed[b.rec["path"]] = {"class": "II", "mod": k, "needs": needs, "reason": reason}
-                R.assume(b.rec["path"], reason)
+            closed[b.rec["path"]] = {"class": "II", "mod": k, "needs": needs, "reason": reason, "role": role}
+            R.assume("%s (role %s)" % (b.rec["path"], role), reason)
+        else:
+            R.note("class-II role %s matched %d methods" % (role, len(cands)))
     # today's members of class I, confirmed by reading: a rename is tolerated, a method that *stops* ending in
     # the conditional subtraction is not (it would no longer be class I and every Fp write through it is reported)
     return closed, prim, R.finish()
@@ -455,9 +473,10 @@ def rule_guard(repo):
     run(prim, "conditional subtraction: subtract ⇔ carry ∨ self ≥ modulus", spec_prim,
         "C06:guard:%s" % prim.rec["path"], lambda res, asg, tb: bool(res.called(lambda f: f.name == "sub_with_borrow")))
 
-    # 2. U256::sub: add the modulus iff self < other
+    # 2. modular subtraction (found by role): add the modulus iff self < other
+    role_of = {p: i.get("role") for p, i in closed.items()}
     for b in F.fn_bodies():
-        if b.rec.get("impl_self_adt") == U256 and not b.impl_trait and b.name == "sub" and len(b.rec.get("inputs") or []) == 3:
+        if role_of.get(b.rec["path"]) == "sub":
             def spec_sub(asg, atoms):
                 a, rev = ord_atom(atoms, is_self0, is_par0(2))
                 if a is None:
@@ -467,7 +486,7 @@ def rule_guard(repo):
             run(b, "modular subtraction: add modulus ⇔ self < other", spec_sub, "C06:guard:%s" % b.rec["path"],
                 lambda res, asg, tb: bool(res.called(lambda f: f.name == "add_with_carry")))
         # 3. neg: p - a iff a != 0
-        if b.rec.get("impl_self_adt") == U256 and not b.impl_trait and b.name == "neg" and len(b.rec.get("inputs") or []) == 2:
+        if role_of.get(b.rec["path"]) == "neg":
             def spec_neg(asg, atoms):
                 for a in atoms:
                     if a[0] == "bool" and a[1][0] == "call" and a[1][1].name == "is_zero":
